@@ -59,6 +59,7 @@ class QSpec:
         self.ms = cls == "MSSQLQuery"
         self.frm, self.withs, self.joins = [], [], []      # joins: (item, criterion tables or None, WITH references)
         self.values = self.assigned = False
+        self.subcount = 0             # sub-queries the statement has named itself: sq0, sq1, ...
         self.insert = self.update = None
         self.delete = False
         self.nsel, self.star = 0, False
@@ -86,6 +87,18 @@ class QSpec:
             if any(t[0] == "str" or rfields(t) for t in terms) and any(j[1] is None for j in self.joins):
                 return False        # reads join.criterion of a USING / CROSS join
         return True
+
+    # -- an un-aliased sub-query is named sq<n> by the statement that selects from / joins it --
+    def _tagged(self, t):
+        if t is not None and t[0] == "sub" and t[1] is None:
+            return ["sub", "sq%d" % self.subcount, t[2], t[3]]
+        return t
+
+    def _see(self, item, ref):
+        """a field built from the very object being joined sees the name it has just been given"""
+        if ref is not None and ref[0] == "sub" and ref[1] is None and T(ref) == T(item):
+            return self._tagged(item)
+        return ref
 
     # -- sources a join criterion may name --
     def _sources(self, item):
@@ -120,9 +133,9 @@ class QSpec:
             if h[0] == "using" and not h[1]:
                 return "join_using_none", JE
             if h[0] == "on":
-                src = self._sources(item)
+                src = self._sources(self._tagged(item))
                 for pair in h[1]:
-                    for tref, _ in pair:
+                    for tref, _ in [(self._see(item, tr), n_) for tr, n_ in pair]:
                         # a reference to a WITH query is judged when the statement is rendered (with_() may follow)
                         if tref is not None and tref[0] != "alq" and T(tref) not in src:
                             return "join_foreign_table", JE
@@ -218,7 +231,11 @@ class QSpec:
     def apply(self, c):
         k = c[0]
         if k == "from":
-            self.frm.append(c[1])
+            if c[1][0] == "sub" and c[1][1] is None:
+                self.frm.append(self._tagged(c[1]))
+                self.subcount += 1
+            else:
+                self.frm.append(c[1])
         elif k == "with":
             self.withs.append(["alq", c[1]])
         elif k == "into":
@@ -249,7 +266,12 @@ class QSpec:
             else:
                 self.grouped = True
         elif k == "join":
-            item, h = list(c[1]), c[2]
+            raw, h = c[1], c[2]
+            item = list(self._tagged(raw))
+            if h[0] == "on":
+                h = ["on", [[[self._see(raw, tr), n_] for tr, n_ in pair] for pair in h[1]]]
+            if raw[0] == "sub" and raw[1] is None:
+                self.subcount += 1
             base = [T(t) for t in self.frm] + [T(t) for t in self.withs] + ([T(self.update)] if self.update is not None else [])
             if item[0] == "tab" and item[3] is None and T(item) in base:
                 # documented: joining a base table again without alias gets the first free name "<name>2", "<name>3", ...
@@ -263,7 +285,7 @@ class QSpec:
             if h[0] == "on":
                 refs = [tr for pair in h[1] for tr, _ in pair if tr is not None]
             elif h[0] == "on_field":
-                refs = [self.frm[0], c[1]]
+                refs = [self.frm[0], item]
             else:
                 refs = None
             crit = None if refs is None else [t for t in refs if t[0] == "tab"]
@@ -565,7 +587,13 @@ def detail(case, spec, call, verdict, pred, actual):
             return "tableless-field-on-update"
         return "other"
     if k == "join" and verdict == "missed" and call[2][0] == "on" and call[2][1]:
-        flds = [f for pair in call[2][1] for f in pair]
+        flds = [[spec._see(call[1], f[0]), f[1]] for pair in call[2][1] for f in pair]
+        src = spec._sources(spec._tagged(call[1]))
+        for tr, _ in flds:
+            # a sub-query that is no source but has the alias and the FROM table of one that is
+            if tr is not None and tr[0] == "sub" and T(tr) not in src and any(
+                    u[0] == "sub" and u[1] == tr[1] and u[2] == tr[2] for u in src):
+                return "subquery-same-alias-same-from"
         return "same-column-key-shadowing" if key_collision(flds) else "other"
     if k in ("primary_key", "foreign_key") and verdict == "missed":
         prev = spec.pk if k == "primary_key" else spec.fk
